@@ -16,7 +16,7 @@ import (
 func init() {
 	Registry["C09"] = C09
 	Metas["C09"] = Meta{
-		Explanation: "Decides the clauses of C09 by role evaluation over all sign regions of the TTL argument and of the default: (X1) the TTL computation of each cache implementation returns now+d for d > 0; for d == DefaultExpiration it substitutes the default loaded from the settings during this very call (one load, the same value is tested and added) and returns now+D for D > 0 and 0 (never expires) otherwise; every other d <= 0 yields 0; no other comparison is involved; (X2) every item a method stores carries the expiration computed in that call from that method's own TTL argument (Set / GetAndSet / GetAndRefresh on a live entry / Compute and the storing branches of GetOrSet and GetOrCompute re-arm; SetDefault and SetForever use the documented sentinels), while Get*, Range, Items and the hit branches of GetOrSet / GetOrCompute leave the stored item untouched - as rows of the reviewed reference table; (X3) GetWithExpiration reports Unix(0, e) exactly when e > 0 and the zero time otherwise, GetWithTTL reports Until(Unix(0, e)) exactly when e > 0 and NoExpiration otherwise, both only for an entry that tested unexpired; (X4) settings flow: SetDefaultExpiration stores its argument, the option functions write their own config field from their own argument, the constructor stores the normalised config's default into the setting (never a sibling field), option functions and the NewDefault family write their duration arguments on every path (no value is silently replaced by a default), and NewDefault passes its two durations to the fields of the same name. NOT decided: arithmetic at the int64 / time.Time boundaries, wall-clock vs monotonic readings.",
+		Explanation: "Decides the clauses of C09 by role evaluation over all sign regions of the TTL argument and of the default: (X1) the TTL computation of each cache implementation returns now+d for d > 0; for d == DefaultExpiration it substitutes the default loaded from the settings during this very call (one load, the same value is tested and added) and returns now+D for D > 0 and 0 (never expires) otherwise; every other d <= 0 yields 0; no other comparison is involved; (X2) every item a method stores carries the expiration computed in that call from that method's own TTL argument (Set / GetAndSet / GetAndRefresh on a live entry / Compute and the storing branches of GetOrSet and GetOrCompute re-arm; SetDefault and SetForever use the documented sentinels), while Get*, Range, Items and the hit branches of GetOrSet / GetOrCompute leave the stored item untouched - as rows of the reviewed reference table; (X3) GetWithExpiration reports Unix(0, e) exactly when e > 0 and the zero time otherwise, GetWithTTL reports Until(Unix(0, e)) exactly when e > 0 and NoExpiration otherwise, both only for an entry that tested unexpired; (X4) settings flow: SetDefaultExpiration stores its argument, the option functions write their own config field from their own argument, the constructor stores the normalised config's default into the setting (never a sibling field), option functions and the NewDefault family write their duration arguments on every path (no value is silently replaced by a default), and NewDefault passes its two durations to the fields of the same name; (X5) a stored (value, deadline) pair is replaced as a whole and a published entry is never written again, so a lock-free reader reports the instant that belongs to the value it reports (restated from C03/C04.P2). NOT decided: arithmetic at the int64 / time.Time boundaries, wall-clock vs monotonic readings.",
 		Rule:        "one obligation per (rule, function, partition or table row); non-trivial = decided from evaluated abstract paths",
 		Assumptions: []string{"time.Now / Time.Add / UnixNano / time.Unix / time.Until behave as documented"},
 	}
@@ -175,6 +175,16 @@ func C09(r *Run) *core.Report {
 		}
 	}
 	c09X4(r, rep)
+	// X5: the instant reported belongs to the value reported: a stored (value, deadline) pair is replaced as a whole
+	// and a published entry is never written again, so a lock-free reader cannot pair the value of one store with the
+	// deadline of another or see a half-written deadline on a 32-bit platform (restated from C03/C04.P2)
+	n5 := 0
+	for i, mm := range r.M.Maps {
+		tmp := core.NewReport("C09")
+		p2Unique(r, tmp, []string{"C03", "C04"}[i], mm)
+		n5 += borrow(rep, tmp, "C09.X5", "C03.P2", "C04.P2")
+	}
+	rep.MinCount("C09.X5", "premise obligations (stored pairs are replaced whole)", n5, 3)
 	return rep
 }
 
